@@ -165,7 +165,7 @@ fn slice_roundtrip<T: Copy + Pl, const N: usize>(vals: [T; N]) {
     forget(back);
 }
 h!(q_slice_rt_u16_n2, 5, slice_roundtrip::<u16, 2>(kani::any()));
-h!(r0_slice_rt_u8_n0, 5, slice_roundtrip::<u8, 0>([]));
+h!(q_slice_rt_u8_n0, 5, slice_roundtrip::<u8, 0>([]));
 h!(r1_slice_rt_u64_n3, 5, slice_roundtrip::<u64, 3>(kani::any()));
 h!(q_slice_rt_s5a16_n1, 5, slice_roundtrip::<S5a16, 1>([S5a16(bytes())]));
 h!(r2_slice_rt_s33a32_n2, 5, slice_roundtrip::<S33a32, 2>([S33a32(bytes()), S33a32(bytes())]));
